@@ -34,10 +34,10 @@ def gen_world(rng, idx):
     layers = gen.random_layer_graph(rng, nmax=6, nmin=2, p_edge=0.45,
                                     p_hook=0.75)
     r = rng.random()
-    if r < 0.15:
+    if r < 0.2:
         # three bases, two of them with a common base, one unrelated root
         layers = gen.diamond_family(rng, p_hook=0.75)
-    elif r < 0.3:
+    elif r < 0.4:
         # a layer on two roots and siblings on one of them
         layers = gen.mi_sibling_family(rng, p_hook=0.75)
     tbl = {}
@@ -63,7 +63,7 @@ def cases(tier, seed):
     import vworld
     rng = random.Random(seed * 7919 + 1)
     out = []
-    nworlds = 60 if tier == 'quick' else 900
+    nworlds = 100 if tier == 'quick' else 900
     idx = 0
     for w in range(nworlds):
         idx += 1
